@@ -442,9 +442,15 @@ func (c *consumerGroup) handleError(err error, topic string, partition int32) {
 }
 
 func (c *consumerGroup) loopCheckPartitionNumbers(topics []string, session *consumerGroupSession) {
-	pause := time.NewTicker(c.config.Metadata.RefreshFrequency)
 	defer session.cancel()
-	defer pause.Stop()
+	// with background metadata refresh disabled (RefreshFrequency == 0) there is no tick: the
+	// loop then only waits for the end of the session or of the group
+	var tick <-chan time.Time
+	if c.config.Metadata.RefreshFrequency > 0 {
+		pause := time.NewTicker(c.config.Metadata.RefreshFrequency)
+		defer pause.Stop()
+		tick = pause.C
+	}
 	var oldTopicToPartitionNum map[string]int
 	var err error
 	if oldTopicToPartitionNum, err = c.topicToPartitionNumbers(topics); err != nil {
@@ -461,7 +467,7 @@ func (c *consumerGroup) loopCheckPartitionNumbers(topics []string, session *cons
 			}
 		}
 		select {
-		case <-pause.C:
+		case <-tick:
 		case <-session.ctx.Done():
 			Logger.Printf("loop check partition number coroutine will exit, topics %s", topics)
 			// if session closed by other, should be exited
